@@ -8,7 +8,7 @@
 set -u
 export GOFLAGS=-mod=mod GOPROXY=off GOSUMDB=off GOTOOLCHAIN=local
 M=$1; NAME=$2; shift 2; PROPS="$@"
-V=/verif
+V=${VERIF_SRC:-/verif}
 WT=$(mktemp -d /tmp/seedwt-XXXXXX); rmdir $WT
 git -C /repo worktree add -q --detach $WT HEAD || exit 2
 cleanup() { git -C /repo worktree remove --force $WT 2>/dev/null; [ "${ISO:-0}" = 1 ] || git -C /repo checkout -- . ; }
